@@ -20,9 +20,13 @@
 (* TLC runs the recogniser over RefEncode(shape) for every shape and checks    *)
 (* that exactly one term matching Expect(shape) comes out; Trace_CqlTerm.tla   *)
 (* runs it over the characters cassandra.query.bind_params produced.           *)
-(* Not decided here: that a float / decimal / timestamp literal denotes the    *)
-(* same NUMBER (Expect only asks for a number / integer / string token).       *)
-EXTENDS CqlLex
+(* Not decided here: that a float / decimal literal denotes the same NUMBER     *)
+(* (Expect only asks for a number / integer / string token there).  Decided    *)
+(* for timestamps near the epoch: a datetime with wall-clock time w (ms since  *)
+(* 1970-01-01T00:00 on its own clock) and UTC offset o denotes the instant     *)
+(* w - o; a naive datetime is taken as UTC (what DateType.serialize sends on   *)
+(* the prepared path); the literal must be exactly that integer.               *)
+EXTENDS CqlLex, Integers
 
 CONSTANT Rich          \* BOOLEAN: larger payload alphabets and more children (thorough tier)
 
@@ -149,6 +153,7 @@ BytesTags  == {"bytes", "bytearray", "memoryview", "MyBytes"}
 IntTags    == {"int", "MyInt"}
 FloatTags  == {"float", "MyFloat", "Decimal"}
 UuidTags   == {"uuid", "MyUUID"}
+TzTag      == "datetime_tz"                                     \* datetime near the epoch: p = wall ms "@" utc offset
 AnyIntTags == {"datetime", "Date"}                               \* millisecond timestamp, days (cassandra.util.Date)
 AnyStrTags == {"date", "time", "Time", "inet4", "inet6"}
 ListTags   == {"list", "tuple", "MyList", "namedtuple", "generator"}   \* the encoder targets a list literal for all of them
@@ -173,6 +178,25 @@ UuidPayloads  == { <<"1","2","3","e","4","5","6","7","-","e","8","9","b","-","1"
                      "0","0","0","0","0","0","0","0","0","0","0","a">> }
 Variants      == { <<"1">>, <<"2">> }                              \* the harness holds two values per temporal / inet tag
 
+\* datetimes near the epoch.  Payload: digits of the wall-clock milliseconds, "@", then "n" (naive) or the signed
+\* UTC offset in milliseconds.  All numbers stay far below 2^31.
+WallPayloads == { <<"0">>, <<"1","0","0","0">>, <<"8","6","4","0","0","1","2","3">> }          \* 0, 1 s, 1 day + 123 ms
+OffPayloads  == { <<"n">>, <<"+","0">>, <<"+","7","2","0","0","0","0","0">>, <<"-","3","6","0","0","0","0","0">> }
+DtzShapes    == {S(TzTag, w \o <<"@">> \o o) : w \in WallPayloads, o \in OffPayloads}
+
+DigitVal == [c \in Digit |-> (CHOOSE i \in 1..10 : DigitSeq[i] = c) - 1]
+RECURSIVE NatOf(_), NatChars(_)
+NatOf(ds)   == IF Len(ds) = 0 THEN 0 ELSE 10 * NatOf(SubSeq(ds, 1, Len(ds) - 1)) + DigitVal[ds[Len(ds)]]
+NatChars(x) == IF x < 10 THEN <<DigitSeq[x + 1]>> ELSE NatChars(x \div 10) \o <<DigitSeq[(x % 10) + 1]>>
+IntChars(x) == IF x < 0 THEN <<"-">> \o NatChars(0 - x) ELSE NatChars(x)
+AtPos(p)    == CHOOSE i \in 1..Len(p) : p[i] = "@"
+WallMs(p)   == NatOf(SubSeq(p, 1, AtPos(p) - 1))
+OffsetMs(p) == LET o == From(p, AtPos(p) + 1) IN
+               IF o = <<"n">> THEN 0                                  \* naive: read as UTC
+               ELSE IF o[1] = "-" THEN 0 - NatOf(Tail(o)) ELSE NatOf(Tail(o))
+\* the instant, in milliseconds since the epoch: what the prepared path sends and the literal must say
+EpochMs(p)  == WallMs(p) - OffsetMs(p)
+
 Scalars ==
          {S(t, p) : t \in StrTags, p \in StrPayloads}
     \cup {S(t, p) : t \in BytesTags, p \in BytesPayloads}
@@ -182,6 +206,7 @@ Scalars ==
     \cup {S(t, p) : t \in UuidTags, p \in UuidPayloads}
     \cup {S(t, p) : t \in AnyIntTags \cup AnyStrTags, p \in Variants}
     \cup {S("none", <<>>)}
+    \cup DtzShapes
 
 \* children of collections: pairwise different Python values, all hashable
 Kid1 == S("str", <<"a", "'", "b">>)
@@ -236,7 +261,7 @@ Level3 ==
 Deep ==  {C(t, <<C(t2, <<c>>)>>) : t \in {"list", "MyList"}, t2 \in {"tuple", "list"}, c \in Core2}
     \cup {C("dict", <<Kid1, C("list", <<c>>)>>) : c \in Core2}
 
-Shapes == Scalars \cup Level2 \cup Level3 \cup Deep
+Shapes == Scalars \cup Level2 \cup Level3 \cup Deep \cup {C("list", <<s>>) : s \in DtzShapes}
 
 RECURSIVE Expect(_)
 Expect(s) ==
@@ -247,6 +272,7 @@ Expect(s) ==
       [] s.tag \in FloatTags  -> T("number", <<>>)
       [] s.tag \in UuidTags   -> T("uuid", s.p)
       [] s.tag \in AnyIntTags -> T("anyint", <<>>)
+      [] s.tag = TzTag        -> T("int", IntChars(EpochMs(s.p)))
       [] s.tag \in AnyStrTags -> T("anystr", <<>>)
       [] s.tag = "none"       -> T("null", <<>>)
       [] s.tag \in ListTags   -> T("list", [i \in 1..Len(s.kids) |-> Expect(s.kids[i])])
@@ -266,6 +292,7 @@ RefEncode(s) ==
       [] s.tag \in BytesTags  -> <<"0", "x">> \o s.p
       [] s.tag \in IntTags \cup FloatTags \cup UuidTags \cup {"bool"} -> s.p
       [] s.tag \in AnyIntTags -> <<"-", "1", "5">>
+      [] s.tag = TzTag        -> IntChars(EpochMs(s.p))
       [] s.tag \in AnyStrTags -> QuoteStr(<<"1", ":", "2">>)
       [] s.tag = "none"       -> <<"N", "U", "L", "L">>
       [] s.tag \in ListTags   -> <<"[">> \o Joined([i \in 1..Len(s.kids) |-> RefEncode(s.kids[i])], CommaSp) \o <<"]">>
@@ -296,7 +323,8 @@ TFinish  == Finish /\ Consume(AtEnd(mode, cur))
 
 \* the few shapes the vacuity witnesses need (a subset of Shapes), INIT of the witness configuration
 WitnessShapes == {C("MyList", <<C("tuple", <<C("list", <<Kid2>>)>>)>>),
-                  C("set", <<>>), C("list", <<Kid1>>), C("list", <<C("dict", <<Kid1, Kid2>>)>>)}
+                  C("set", <<>>), C("list", <<Kid1>>), C("list", <<C("dict", <<Kid1, Kid2>>)>>),
+                  S(TzTag, <<"0", "@", "+","7","2","0","0","0","0","0">>)}
 TInitW == /\ shape \in WitnessShapes
           /\ want = Expect(shape)
           /\ n = RefEncode(shape) /\ form = "raw" /\ bare = FALSE
@@ -317,6 +345,7 @@ StackBounded == Len(stack) <= 3
 Witness_Depth3     == ~(Len(stack) = 3 /\ shape.tag = "MyList" /\ stack[3].st = "open")
 Witness_MapInList  == ~(done /\ Accepted /\ out[1].k = "list" /\ \E i \in 1..Len(out[1].v) : out[1].v[i].k = "map")
 Witness_EmptyBrace == ~(done /\ Accepted /\ out[1].k = "empty_brace")
+Witness_AwareBeforeEpoch == ~(done /\ Accepted /\ shape.tag = TzTag /\ out[1].v = <<"-","7","2","0","0","0","0","0">>)
 Witness_QuoteInStr == ~(done /\ Accepted /\ out[1].k = "list" /\ Len(out[1].v) = 1 /\ out[1].v[1].k = "str"
                           /\ \E i \in 1..Len(out[1].v[1].v) : out[1].v[1].v[i] = "'")
 =============================================================================
